@@ -149,8 +149,13 @@ class HistoryRun:
         vs = s.call("versions", h=self.r.h, id=oid)
         if "ok" not in vs:
             return {"error": hist.res_class(vs)}
+        out["log"] = [(vd["version"], vd["name"], vd["address"], vd["message"], vd["created"]) for vd in vs["ok"]]
+        va = s.call("validate_object", h=self.r.h, id=oid, fixity=True)
+        out["validate"] = sorted(e[0] for e in va["ok"]["errors"]) if "ok" in va else hist.res_class(va)
         for vd in vs["ok"]:
             n = vd["num"]
+            df = s.call("diff", h=self.r.h, id=oid, left=None, right=n)
+            out[("diff", n)] = sorted(map(lambda x: repr(sorted(x.items())), df["ok"])) if "ok" in df else hist.res_class(df)
             g = s.call("get_object", h=self.r.h, id=oid, version=n)
             ent = {"res": hist.res_class(g), "listing": None, "cat": {}}
             if "ok" in g:
